@@ -66,7 +66,7 @@ impl<N, E> vstd::std_specs::core::IndexSpecImpl<NodeIndex> for DiGraph<N, E> {
 pub fn verif_rc_node_indices<N, E>(g: &DiGraph<N, E>) -> (r: Vec<NodeIndex>)
     ensures
         r@.len() == g.node_count_spec(),
-        forall |k: int| 0 <= k < r@.len() ==> (#[trigger] r@[k]).i == k,
+        forall |k: int| 0 <= k < r@.len() ==> (#[trigger] r@[k]).i == k && r@[k] == (NodeIndex { i: k as usize }),
 { unimplemented!() }
 
 /// R9 target for `for edge in GRAPH.edge_references()` (the iterator is materialised as a Vec).
@@ -83,30 +83,6 @@ pub fn verif_rc_edge_references<'a, N, E>(g: &'a DiGraph<N, E>) -> (r: Vec<RcEdg
 pub open spec fn rc_out_edge<N, E>(g: DiGraph<N, E>, a: NodeIndex, e: int) -> bool {
     0 <= e < g.edge_seq().len() && g.edge_seq()[e].0 == a
 }
-
-/// R9 target for `GRAPH.neighbors(A).count()`.
-/// petgraph `Graph::neighbors(a)`: "Return an iterator of all nodes with an edge starting from a. Directed: Outgoing edges
-/// from a. Produces an empty iterator if the node doesn't exist."  One item per outgoing edge (parallel edges yield the
-/// neighbour repeatedly); `Iterator::count`: "Consumes the iterator, counting the number of iterations".  Only two
-/// consequences of "the number of outgoing edges" are assumed: it is 0 iff there is none, and above 1 iff there are two
-/// different ones.
-#[verifier::external_body]
-pub fn verif_rc_neighbors_count<N, E>(g: &DiGraph<N, E>, a: NodeIndex) -> (r: usize)
-    ensures
-        r == 0 <==> !exists |e: int| rc_out_edge(*g, a, e),
-        r > 1 <==> exists |e1: int, e2: int| rc_out_edge(*g, a, e1) && rc_out_edge(*g, a, e2) && e1 != e2,
-{ unimplemented!() }
-
-/// R9 target for `GRAPH.neighbors(A).next().unwrap()`: the target of SOME outgoing edge of `a` (which one: petgraph lists
-/// neighbours in reverse order of edge insertion; not specified here).  `unwrap()` panics on an empty iterator: "there is
-/// an outgoing edge" is a PRECONDITION, proved at the call.
-#[verifier::external_body]
-pub fn verif_rc_first_neighbor<N, E>(g: &DiGraph<N, E>, a: NodeIndex) -> (r: NodeIndex)
-    requires
-        exists |e: int| rc_out_edge(*g, a, e),
-    ensures
-        exists |e: int| #[trigger] rc_out_edge(*g, a, e) && r == g.edge_seq()[e].1,
-{ unimplemented!() }
 
 // ---- std -------------------------------------------------------------------------------------------------------------------
 
